@@ -85,6 +85,10 @@ func allScenarios() []*scenario {
 			Why: "auto-compacting Add ‖ Add with one injected I/O fault"},
 		{Name: "F3-fault-range-range", Init: "four", Procs: []procSpec{PNoAuto(rng(0, 2)), PNoAuto(rng(1, 3))}, Preempt: 2, Faults: 1,
 			Why: "overlapping range compactions with one injected I/O fault"},
+		{Name: "S16c", Init: "cancel", Procs: []procSpec{PNoAuto(rng(0, 1), st("read")), Reader(st("read"), add("a"), st("read"))}, Preempt: -1,
+			Why: "compaction of a bottom range that cancels out entirely (no output table) while tables above it stay listed ‖ reader/adder"},
+		{Name: "S6r", Init: "two", Procs: []procSpec{PNoAuto(add("a"), rng(1, 2)), Reader(st("read"), st("reload"), st("read"))}, Preempt: -1,
+			Why: "an explicit reload racing with add + partial compaction: a reload that reports success must settle on a version at least as new as the one current when it started"},
 		{Name: "S16", Init: "three", Procs: []procSpec{PNoAuto(rng(1, 2)), PNoAuto(add("a"))}, Preempt: -1,
 			Why: "partial-range compaction over a tombstone ‖ Add"},
 	}
@@ -104,10 +108,10 @@ func allScenarios() []*scenario {
 
 var quickSets = map[string][]string{
 	"C04": {"S1-empty", "S1-one", "S2", "S5", "S8", "S14", "S9", "S1-one@s256", "S10", "S18-reject", "S19-span", "S3", "S12", "S16", "S2@s256"},
-	"C05": {"S1-one", "S2", "S3", "S4", "S4b", "S18-reject", "S19-span", "S6p", "S6q-b2", "S7-close-partial", "F1-fault-compact-add", "F2-fault-add-add", "S5", "S7-close", "S7-clean", "S13", "S15-crash", "S16"},
+	"C05": {"S1-one", "S2", "S3", "S4", "S4b", "S16c", "S18-reject", "S19-span", "S6p", "S6q-b2", "S7-close-partial", "F1-fault-compact-add", "F2-fault-add-add", "S5", "S7-close", "S7-clean", "S13", "S15-crash", "S16"},
 	"C08": {"S1-one", "S2", "S4b", "S5", "S5b", "S8", "S7-clean", "F1-fault-compact-add", "F2-fault-add-add", "F3-fault-range-range"},
-	"C10": {"S6", "S6p", "S6o", "S6q-b2", "S1-one", "S12", "S6-3", "S6p@s256"},
-	"C16": {"S1-empty", "S1-one", "S2", "S4", "S4b", "S18-reject", "S7-close-partial", "F1-fault-compact-add", "F2-fault-add-add", "S5", "S7-close", "S7-clean", "S7-clean-compact", "S8", "S10", "S17-gc-empty"},
+	"C10": {"S6", "S6p", "S6o", "S6q-b2", "S1-one", "S12", "S6-3", "S6p@s256", "S6r", "S16c"},
+	"C16": {"S1-empty", "S1-one", "S2", "S4", "S4b", "S16c", "S18-reject", "S7-close-partial", "F1-fault-compact-add", "F2-fault-add-add", "S5", "S7-close", "S7-clean", "S7-clean-compact", "S8", "S10", "S17-gc-empty"},
 }
 
 func catalogue(prop, tier string) []*scenario {
